@@ -134,9 +134,35 @@ func runC14(r *Run) {
 	defer undo()
 	outcomes := []string{"g", "x", "b", "f", "e", "u", "never"}
 	cases := r.N(150, 1500)
+	// A Forward instance serves a session of 1..4 consecutive cases (outcomes, arrival order, tag subset and
+	// cancellation drawn anew for each): what a call is owed does not depend on how earlier calls on the instance ended.
+	var (
+		sessLeft, sessCall, n, conc int
+		tags                        []string
+		started                     chan *upCall14
+		ups                         []*up14
+		f                           *fastforward.Forward
+	)
 	for ci := 0; ci < cases; ci++ {
-		n := 1 + r.Rng.Intn(5)
-		conc := []int{-2, 0, 1, 2, 3, 4, 7}[r.Rng.Intn(7)]
+		if sessLeft == 0 {
+			n = 1 + r.Rng.Intn(5)
+			conc = []int{-2, 0, 1, 2, 3, 4, 7}[r.Rng.Intn(7)]
+			tags = make([]string, n)
+			for i := range tags {
+				tags[i] = fmt.Sprintf("t%d", i)
+			}
+			started = make(chan *upCall14, 16)
+			ups = make([]*up14, n)
+			uis := make([]upstream.Upstream, n)
+			for i := 0; i < n; i++ {
+				u := &up14{idx: i, started: started}
+				ups[i], uis[i] = u, u
+			}
+			f = fastforward.VerifNewForward(conc, uis, tags)
+			sessLeft, sessCall = 1+r.Rng.Intn(4), 0
+		}
+		sessLeft--
+		sessCall++
 		c := conc
 		if c <= 0 {
 			c = 1
@@ -145,29 +171,17 @@ func runC14(r *Run) {
 			c = 3
 		}
 		// tag subset?
-		tags := make([]string, n)
-		for i := range tags {
-			tags[i] = fmt.Sprintf("t%d", i)
-		}
 		subset := []int(nil)
 		if r.Rng.Intn(3) == 0 {
 			k := 1 + r.Rng.Intn(n)
 			perm := r.Rng.Perm(n)[:k]
 			subset = perm
 		}
-		started := make(chan *upCall14, 16)
-		ups := make([]*up14, n)
-		uis := make([]upstream.Upstream, n)
 		// outcome per helper, in the order in which the harness will release them
 		planned := []string{}
 		for i := 0; i < c; i++ {
 			planned = append(planned, outcomes[r.Rng.Intn(len(outcomes))])
 		}
-		for i := 0; i < n; i++ {
-			u := &up14{idx: i, started: started}
-			ups[i], uis[i] = u, u
-		}
-		f := fastforward.VerifNewForward(conc, uis, tags)
 		var exec sequence.Executable = f
 		usedN := n
 		if subset != nil {
@@ -226,7 +240,7 @@ func runC14(r *Run) {
 				cl.outcome = planned[i]
 			}
 		}
-		desc := map[string]any{"upstreams": n, "concurrent_setting": conc, "outcomes_in_arrival_order": strings.Join(planned, ","), "tag_subset": fmt.Sprint(subset)}
+		desc := map[string]any{"upstreams": n, "concurrent_setting": conc, "outcomes_in_arrival_order": strings.Join(planned, ","), "tag_subset": fmt.Sprint(subset), "call_number_on_this_forward_instance": sessCall}
 		if len(calls) != c {
 			desc["queried"] = len(calls)
 			r.Fail("the number of upstreams queried is not the concurrency clamped to 1..3", desc)
@@ -467,7 +481,8 @@ func runC14(r *Run) {
 		r.Trace()
 	}
 	runC14Configured(r)
-	r.Finish("upstream lists of 1..5 in-memory upstreams (all, or a random tag subset in random order) x concurrent in {-2, 0, 1, 2, 3, 4, 7} x per-helper outcome {NOERROR, NXDOMAIN, SERVFAIL, REFUSED, error, unparsable bytes, never answers} in a scripted arrival order x context cancellation before any arrival / between arrivals / after all; released pool buffers are overwritten; plus forwards built by NewForward / Init from decoded plugin arguments: 1..4 entries leading to 4 loopback servers (UDP, TCP, SOCKS5; distinguishable answers, every received query recorded) through their own addr, through dial_addr / socks5 under an addr shared with other entries, or through the plugin-wide socks5, all entries or a tag subset: the multiset of servers that received each query must be that of c cyclically consecutive configured positions, and the reply must be a legitimate one among the contacted servers' answers")
+	runC14Faults(r)
+	r.Finish("upstream lists of 1..5 in-memory upstreams (all, or a random tag subset in random order) x concurrent in {-2, 0, 1, 2, 3, 4, 7} x per-helper outcome {NOERROR, NXDOMAIN, SERVFAIL, REFUSED, error, unparsable bytes, never answers} in a scripted arrival order x context cancellation before any arrival / between arrivals / after all, 1..4 consecutive calls on one Forward instance; released pool buffers are overwritten; plus forwards built by NewForward / Init from decoded plugin arguments: 1..4 entries leading to 4 loopback servers (UDP, TCP, SOCKS5; distinguishable answers, every received query recorded) through their own addr, through dial_addr / socks5 under an addr shared with other entries, or through the plugin-wide socks5, all entries or a tag subset: the multiset of servers that received each query must be that of c cyclically consecutive configured positions, and the reply must be a legitimate one among the contacted servers' answers; plus fault sequences on one configured forward (stream upstreams tcp / tcp+pipeline / socks5 with max_conns 0..3, idle_timeout, tags and tag subsets): sessions of healthy queries, outages (servers hang up on every query or refuse every connection, so that exchanges fail) and recoveries, repeated: during an outage the outcome must be one the statement allows for some start position, after it every query must again reach c cyclically consecutive configured positions and be answered by one of them")
 }
 
 func poison01c14() func() {
